@@ -13,7 +13,6 @@ RULE = ("call sequences over {start(), start(max'), advance(1/3/-2/max), set_pro
         "min-interval {0.1, 0, 0.05} x ANSI / plain / quiet outputs: all sequences up to length 3 (quick) / 4 (thorough) for a base "
         "set-up, random sequences up to length 60 over everything; every stream write with its clock value is compared and replayed "
         "on a terminal emulator; non-trivial = >= 2 frames; distinct by case")
-THEOREMS = ["frame_wf", "step_in_range", "throttle", "max_reached_draws", "finish_shows_max", "plain_own_line", "quiet_silent", "ansi_line_is_latest"]
 TRUSTED = ["virtual clock: time.time replaced by exact fractions, constant during one call; the section-output kind of progress bar "
            "is outside the model (covered by C15 for the section itself)"]
 ASSUMPTIONS = ["bar / progress characters are the 1-cell defaults; frames are shorter than the terminal width for the ANSI line clause"]
